@@ -145,6 +145,7 @@ func VerifC09_MAC(L int) {
 	c09Unchanged(data, orig, "MACCommand.UnmarshalBinary")
 	decodeDataPayloadToMACCommands(up, []Payload{&DataPayload{Bytes: data}})
 	c09Unchanged(data, orig, "MAC-command stream decoder")
+	verifAssert(verifLocksReleased(), "the MAC-command decoders release the registry lock on every path (else a later registration, and then every decoder, blocks for ever)")
 	verifNoGlobalWritesExcept("") // C10: no hidden package-level state is written
 	verifReach("done")
 }
